@@ -216,6 +216,29 @@ func queryAfterRefresh(pi *model.ProviderInfo, q string, lookup []byte) (ob obse
 	return collect(pc, q, lookup)
 }
 
+// queryAfterOthers: the same cache has answered lookups with another looked-up metadata, for the queried context and for
+// another one, before; a lookup's substitutions are its own and must not show in the next one.
+func queryAfterOthers(pi *model.ProviderInfo, q string, lookup []byte) (ob observed) {
+	defer func() {
+		if e := recover(); e != nil {
+			ob.Panic = fmt.Sprint(e)
+		}
+	}()
+	pc, err := pcache.New(pcache.WithSource(&staticSource{pi}), pcache.WithPreload(true), pcache.WithRefreshInterval(0))
+	if err != nil {
+		ob.Err = "new: " + err.Error()
+		return
+	}
+	earlierMD := []byte{0xa0, 0x12, 0x00, 0x33}
+	for _, c := range []string{q, "an-earlier-context"} {
+		if _, err := pc.GetResults(context.Background(), ids.Peer("m"), []byte(c), earlierMD); err != nil {
+			ob.Err = "earlier lookup: " + err.Error()
+			return
+		}
+	}
+	return collect(pc, q, lookup)
+}
+
 func expectClass(c string) string {
 	if c == "nil" || c == "empty" {
 		return "none"
@@ -336,6 +359,13 @@ func Run(args []string) *rep.Report {
 					n++
 					if key, ok := judge(tc, ob); !ok {
 						r.Diverge(rep.Divergence{Key: key, Case: tc, Expected: tc.Out, Observed: ob, Detail: "variant refreshed: the cache held an earlier record of the provider"})
+					}
+				}
+				{
+					ob := queryAfterOthers(build(tc.Rec, j.idx%2 == 0), tc.Q, lookup)
+					n++
+					if key, ok := judge(tc, ob); !ok {
+						r.Diverge(rep.Divergence{Key: key, Case: tc, Expected: tc.Out, Observed: ob, Detail: "variant repeated: the cache answered lookups with another metadata before"})
 					}
 				}
 				if *httpEvery > 0 && j.idx%*httpEvery == 0 {
